@@ -23,6 +23,9 @@ META = dict(
     ],
 )
 MK = ['verif_nd_mk']
+CALLEES = ['nmtools::index::product', 'nmtools::index::compute_strides', 'nmtools::index::reverse']
+TR = '  __CPROVER_assume(c20_traces(%s));'
+HYL = {'hybrid_ndarray.*resize': 3, 'detail_init_': 3}
 UNITS = [
     Unit('nd.mk', 'c20', 'verif_nd_mk', mode='uf', unwind=10, harness='  __CPROVER_assume(c20_traces_default());',
          clause='(helper) an object with exactly the given state; used through this contract by the other units'),
@@ -31,4 +34,16 @@ UNITS = [
          clause='accepted resize: invariant and shape == argument; refused resize: false and the whole object unchanged'),
     Unit('nd.copy', 'c20', 'verif_nd_copy', mode='uf', unwind=10, replace=MK, clause='copy construction yields the same state'),
     Unit('nd.assign', 'c20', 'verif_nd_assign', mode='uf', unwind=10, replace=MK, clause='assignment yields the state of the right-hand side'),
+    # ---- column-major layout (inst c20c): modular, index helpers through function contracts
+    Unit('ndc.product', 'c20c', 'nmtools::index::product', mode='uf', unwind=10, harness=TR % 'a_shape', clause='(helper contract) product == fold of the extents'),
+    Unit('ndc.compute_strides', 'c20c', 'nmtools::index::compute_strides', mode='uf', unwind=10, harness=TR % 'a_shape', clause='(helper contract) row-major strides of the argument, every position'),
+    Unit('ndc.reverse', 'c20c', 'nmtools::index::reverse', mode='uf', unwind=10, clause='(helper contract) reversed copy, every position'),
+    Unit('ndc.mk', 'c20c', 'verif_ndc_mk', mode='uf', unwind=10, replace=CALLEES, clause='(helper) an object with exactly the given state'),
+    Unit('ndc.default', 'c20c', 'verif_ndc_default', mode='uf', unwind=10, replace=CALLEES, clause='column-major: default construction establishes the invariant'),
+    Unit('ndc.resize', 'c20c', 'verif_ndc_resize', mode='uf', unwind=10, replace=['verif_ndc_mk'] + CALLEES, object_bits=10,
+         clause='column-major: accepted resize: invariant (layout strides = products of the leading extents) and shape == argument; refused: whole object unchanged'),
+    # ---- legacy hybrid_ndarray<float,6,2> (inst c20h): bit-precise, constant-trip helper loops unwound
+    Unit('hy.default', 'c20h', 'verif_hy_default', unwind=10, unwind_loops=HYL, clause='hybrid_ndarray: default construction establishes the invariant'),
+    Unit('hy.resize', 'c20h', 'verif_hy_resize', unwind=10, unwind_loops=HYL, clause='hybrid_ndarray: accepted resize: invariant and shape == argument; refused: whole object unchanged'),
+    Unit('hy.resize2', 'c20h', 'verif_hy_resize2', unwind=10, unwind_loops=HYL, clause='hybrid_ndarray: resize(n0,n1) overload'),
 ]
